@@ -251,6 +251,10 @@ func builderOps(max, thr int, ops []string) string {
 				ok := b.AppendBlobTx(bt)
 				outs[i] = fmt.Sprintf("b:%s:%s", showBool(ok), cur())
 			}
+		case 'z':
+			// a blob transaction without blobs, passed directly to the builder (the decoders refuse one)
+			ok := b.AppendBlobTx(&tx.BlobTx{Tx: unhx(arg)})
+			outs[i] = fmt.Sprintf("z:%s:%s", showBool(ok), cur())
 		case 'x':
 			sq, err := b.Export()
 			if err != nil {
@@ -278,6 +282,14 @@ func builderOps(max, thr int, ops []string) string {
 					ls = "ok:" + itoa(l)
 				}
 				outs[i] = fmt.Sprintf("s:ok:%d:%s", idx, ls)
+			}
+		case 'l':
+			pj := strings.Split(arg, "/")
+			l, err := b.BlobShareLength(atoi(pj[0]), atoi(pj[1]))
+			if err != nil {
+				outs[i] = "l:err"
+			} else {
+				outs[i] = "l:ok:" + itoa(l)
 			}
 		case 'w':
 			iw, err := b.GetWrappedPFB(atoi(arg))
